@@ -15,9 +15,9 @@
 //	CORRESPONDENCE: the chunk graph (address → walker refs) and the dataset heads are sent to the
 //	  Lean model, the model runs the phase steps, and its kept set must be ⊆ the post-GC store.
 //
-// A second case kind adds the API-crafted working set of C09 (addresses only the omitted walker
-// fields reference): the collector then drops data the working set still needs — reported as the
-// known finding `gc-loses:*` (consequence of C09's walk-missing:*).
+// A second case kind adds the API-crafted working set of C09 (addresses that only the working set's
+// merge / rebase state references): before the walker repair (/repo bf9bc24) the collector dropped
+// data the working set still needs (`gc-loses:crafted-working-set`); now it must survive.
 package main
 
 import (
@@ -32,6 +32,7 @@ import (
 	"github.com/dolthub/dolt/go/libraries/doltcore/dbfactory"
 	"github.com/dolthub/dolt/go/store/chunks"
 	"github.com/dolthub/dolt/go/store/hash"
+	"github.com/dolthub/dolt/go/store/types"
 
 	"verif/harness/internal/hx"
 	"verif/harness/internal/wg"
@@ -45,6 +46,7 @@ type kase struct {
 	Archive int    `json:"archive"`
 	Via     string `json:"via"` // sql | api
 	Two     bool   `json:"two"` // a default collection and more history first, then the collection under test
+	Writer  string `json:"writer"` // "" | old | new | both: a session writes and commits at the yield point(s) of ValueStore.GC
 }
 
 type env struct {
@@ -231,9 +233,54 @@ func (v *env) one(k kase) {
 		}
 	}
 
+	// concurrent writer: at the yield points of ValueStore.GC (keeper installed, old-generation mark
+	// not started / new-generation mark not started) a session inserts, updates, commits, tags,
+	// branches and leaves an uncommitted working-set change.  What it wrote must survive.
+	var mid *wg.FP
+	var writerErr error
+	writerRuns := 0
+	if k.Writer != "" {
+		types.VerifSetGCYield(func(point string) {
+			if !(k.Writer == "both" || (k.Writer == "old" && point == "oldgen") || (k.Writer == "new" && point == "newgen")) {
+				return
+			}
+			writerRuns++
+			n := writerRuns
+			for _, q := range []string{
+				fmt.Sprintf("INSERT INTO t2 VALUES (%d, 1, %s)", 9000+n, h.Big("writer", 12000)),
+				fmt.Sprintf("UPDATE t1 SET v = 'w%d', s = %s WHERE id %% 11 = %d", n, h.Big("wu", 5000), n),
+				fmt.Sprintf("CALL dolt_commit('-am', 'writer at %s')", point),
+				fmt.Sprintf("CALL dolt_tag('wtag%d')", n),
+				fmt.Sprintf("CALL dolt_branch('wbranch%d')", n),
+				fmt.Sprintf("INSERT INTO kl VALUES (%d, %s)", 500+n, h.Big("wk", 6000)),
+			} {
+				if err := r.Exec(q); err != nil && writerErr == nil {
+					writerErr = fmt.Errorf("%s: %w", q, err)
+				}
+			}
+			e.Rep.Hit("writer-at:" + point)
+			var ferr error
+			if mid, ferr = wg.Fingerprint(ctx, r.DDB); ferr != nil && writerErr == nil {
+				writerErr = fmt.Errorf("fingerprint after writer: %w", ferr)
+			}
+		})
+		defer types.VerifSetGCYield(nil)
+	}
 	if gerr := v.gc(r, k); gerr != nil {
 		e.Rep.Violate("gc-error", "garbage collection failed: "+gerr.Error(), k)
 		return
+	}
+	types.VerifSetGCYield(nil)
+	if k.Writer != "" {
+		if writerErr != nil {
+			e.Rep.Violate("writer-refused", "a session statement failed while a collection was in a non-finalizing phase: "+writerErr.Error(), k)
+			return
+		}
+		if writerRuns == 0 || mid == nil {
+			e.Rep.Disagree(k, "yield point not reached", "", "writer case")
+			return
+		}
+		before = mid // the expected logical state is the one the writer left
 	}
 	mode := "default"
 	if k.Full {
@@ -250,13 +297,12 @@ func (v *env) one(k kase) {
 	}
 	cs = wg.ChunkStoreOf(ddb2)
 	after, ferr := wg.Fingerprint(ctx, ddb2)
-	canon := fmt.Sprintf("%s|%v|%d|%s|%v|%d", k.Kind, k.Full, k.Archive, k.Via, k.Two, k.Seed)
+	canon := fmt.Sprintf("%s|%v|%d|%s|%v|%s|%d", k.Kind, k.Full, k.Archive, k.Via, k.Two, k.Writer, k.Seed)
 	e.Rep.Count(canon, true)
 	if k.Kind == "crafted" {
-		// consequence of C09's walk-missing:* — the collector drops what only the omitted fields reference
+		// regression of the repaired walker defect (/repo bf9bc24): the working set whose addresses
+		// only the formerly omitted fields reference must survive the collection unchanged
 		if ferr != nil {
-			e.Rep.Known("gc-loses:crafted-working-set", fmt.Sprintf("after GC a working set (merge + rebase state written by the real writers, addresses referenced only from fields SerialMessage.WalkAddrs omits) no longer loads: %v", ferr), k)
-			e.Rep.Hit("known:gc-loses:crafted-working-set")
 			var lost []string
 			for l, a := range labels {
 				if ok, _ := cs.Has(ctx, a); !ok {
@@ -264,16 +310,21 @@ func (v *env) one(k kase) {
 				}
 			}
 			sort.Strings(lost)
-			e.Rep.Note("crafted working set: chunks dropped by GC: " + strings.Join(lost, ", "))
+			e.Rep.Violate("gc-loses:crafted-working-set", fmt.Sprintf("after GC a working set (merge + rebase state written by the real writers, addresses referenced only from the working set) no longer loads: %v; chunks dropped: %s", ferr, strings.Join(lost, ", ")), k)
 		} else if after.Digest != before.Digest {
-			e.Rep.Violate("fingerprint-changed:crafted", "logical fingerprint differs after GC", k)
+			e.Rep.Violate("fingerprint-changed:crafted", "logical fingerprint differs after GC: "+firstDiff(before.Lines, after.Lines), k)
 		} else {
-			e.Rep.Hit("crafted-survived")
+			e.Rep.Hit("crafted-working-set-survived")
+			e.Rep.TracesValidated++
 		}
 		return
 	}
 	if ferr != nil {
-		e.Rep.Violate("gc-loses-data", "after GC the database no longer loads through the public API: "+ferr.Error(), k)
+		key := "gc-loses-data"
+		if k.Writer != "" {
+			key = "gc-loses-concurrent-write"
+		}
+		e.Rep.Violate(key, "after GC the database no longer loads through the public API: "+ferr.Error(), k)
 		return
 	}
 	for c, n := range after.Counts {
@@ -281,7 +332,11 @@ func (v *env) one(k kase) {
 	}
 	if after.Digest != before.Digest {
 		diff := firstDiff(before.Lines, after.Lines)
-		e.Rep.Violate("fingerprint-changed", "logical fingerprint differs after GC: "+diff, k)
+		key := "fingerprint-changed"
+		if k.Writer != "" {
+			key = "gc-loses-concurrent-write:fingerprint"
+		}
+		e.Rep.Violate(key, "logical fingerprint differs after GC: "+diff, k)
 		return
 	}
 	root1, _ := cs.Root(ctx)
@@ -351,11 +406,16 @@ func main() {
 		}
 	}
 	rng := e.Rng
-	n := e.N(4, 20)
+	n := e.N(4, 10)
 	for i := 0; i < n; i++ {
-		k := kase{Kind: "history", Seed: e.Seed*1000 + uint64(i), Rows: e.N(150, 1200), Full: i%2 == 1, Archive: (i / 2) % 2, Via: "sql", Two: i%4 == 1 || i%4 == 2}
+		k := kase{Kind: "history", Seed: e.Seed*1000 + uint64(i), Rows: e.N(150, 600), Full: i%2 == 1, Archive: (i / 2) % 2, Via: "sql", Two: i%4 == 1 || i%4 == 2}
 		if rng.Chance(1, 3) {
 			k.Via = "api"
+		}
+		if i%2 == 1 || i%4 == 2 {
+			// writer cases run the collector through DoltDB.GC so that the session is free to write
+			k.Via = "api"
+			k.Writer = []string{"both", "old", "new"}[i%3]
 		}
 		v.run(k)
 	}
